@@ -139,7 +139,7 @@ def case(ctx, rng, idx, state):
 if __name__ == "__main__":
     harness.main(
         PROP, "exploration", case, setup_fn=setup,
-        tiers=dict(quick=dict(cases=8, shards=8, time=600), thorough=dict(cases=96, shards=16, time=1500)),
+        tiers=dict(quick=dict(cases=8, shards=8, time=900), thorough=dict(cases=96, shards=16, time=3000)),
         rule="one random low-symmetry 2D model (2-4 bands, band width 1.5-6 eV, generic Hermitian SS) per case and one pair group "
              "(idx % 4: Ohmic+GME_spin | BerryDipole | GME_orb(internal) | NLDrude sea/surf/fder2); Fermi-Dirac kT 0.10-0.15 eV, "
              "dE = kT/40, all Fermi levels inside the bands and >= 8 kT inside the window; grids 48^2 and 96^2 "
